@@ -3,11 +3,13 @@
 package fe
 
 import (
+	"encoding/base64"
 	"fmt"
 	"os"
 	"path/filepath"
 	"runtime"
 	"strings"
+	"unicode/utf8"
 
 	"compiler/colors"
 	"compiler/internal/context_v2"
@@ -19,6 +21,10 @@ import (
 type Project struct {
 	ID    string            `json:"id,omitempty"`
 	Files map[string]string `json:"files"`          // relative path -> content
+	// FilesB64 carries the files whose content is not valid UTF-8 across the JSON channel to
+	// the worker (encoding/json would replace every offending byte by U+FFFD); filled in by
+	// the pool, never by callers.
+	FilesB64 map[string]string `json:"files_b64,omitempty"`
 	Dirs  []string          `json:"dirs,omitempty"` // relative paths created as directories
 	Entry string            `json:"entry"`
 	Mode  string            `json:"mode"` // check | il | wasm | native (whole native pipeline: QBE, as, ld -> out.bin)
@@ -85,6 +91,32 @@ func (r *Result) ErrSummary() string {
 	return strings.Join(s, " | ")
 }
 
+// Wire returns the project as it has to be sent over a JSON channel: files that are not valid
+// UTF-8 travel base64-encoded.
+func (p *Project) Wire() *Project {
+	bad := false
+	for _, c := range p.Files {
+		if !utf8.ValidString(c) {
+			bad = true
+			break
+		}
+	}
+	if !bad {
+		return p
+	}
+	q := *p
+	q.Files = map[string]string{}
+	q.FilesB64 = map[string]string{}
+	for n, c := range p.Files {
+		if utf8.ValidString(c) {
+			q.Files[n] = c
+		} else {
+			q.FilesB64[n] = base64.StdEncoding.EncodeToString([]byte(c))
+		}
+	}
+	return &q
+}
+
 // Materialise writes the project into dir (which is emptied first).
 func Materialise(dir string, p *Project) error {
 	os.RemoveAll(dir)
@@ -98,6 +130,17 @@ func Materialise(dir string, p *Project) error {
 		fp := filepath.Join(dir, name)
 		os.MkdirAll(filepath.Dir(fp), 0o755)
 		if err := os.WriteFile(fp, []byte(content), 0o644); err != nil {
+			return err
+		}
+	}
+	for name, b64 := range p.FilesB64 {
+		content, err := base64.StdEncoding.DecodeString(b64)
+		if err != nil {
+			return err
+		}
+		fp := filepath.Join(dir, name)
+		os.MkdirAll(filepath.Dir(fp), 0o755)
+		if err := os.WriteFile(fp, content, 0o644); err != nil {
 			return err
 		}
 	}
